@@ -29,7 +29,8 @@ def run(res, tier, seed, replay):
                    ("conflictx", 255, "sync", "debug", 2000 * n), ("conflictx", 255, "sync", "release", 1500 * n),
                    ("conflictc", 255, "sync", "debug", 500 * n),
                    ("softdeep", 255, "sync", "debug", 500 * n), ("softrej", 255, "sync", "debug", 800 * n),
-                   ("softrej", 255, "sync", "release", 400 * n)]
+                   ("softrej", 255, "sync", "release", 400 * n), ("softpend", 255, "sync", "debug", 300 * n),
+                   ("softpend", 255, "sync", "release", 200 * n)]
         r2, hangs = ss.run_streams(streams, seed + 41, render=True)
         recs += r2
     # ---- cascades of learnt clauses derived from one another, solved on a 256 KiB stack: recursion over the chain shows as a crash
